@@ -67,7 +67,7 @@ def meta(tier):
                 'containing a symbol name) x definition source of each defined symbol in {ISA, -D, #define} x use-line token pairs '
                 '(written once before and once after the #define block, as `.byte t1, t2`, through `T = t1` and as the operand of `ldi b, t2`); plus every '
                 'double definition across and within sources; replacement texts with backslash escapes (5 strings x 3 sources x chains of 0..2 intermediate '
-                'symbols) used in .cstr / .byte; 2..33 occurrences of one symbol on a line / in a replacement text; symbols without a value (3 sources x chains) in 7 lines that stay well-formed when the name disappears; symbol names that also read as numbers (b1, DEH, b101, ACH, each) x 3 sources x chains of 0..2 x alone / next to another symbol, and self-definitions of such names; non-trivial = table with a chain/diamond/cycle or a use line that '
+                'symbols) used in .cstr / .byte; 2..33 occurrences of one symbol on a line / in a replacement text; symbols without a value (3 sources x chains) in 7 lines that stay well-formed when the name disappears; symbol names that also read as numbers (b1, DEH, b101, ACH, each) x 3 sources x chains of 0..2 x alone / next to another symbol, and self-definitions of such names; chains in which the name of a symbol contains the name of the symbol it expands to (BASE_HI -> BASE); integer-valued ISA symbols; non-trivial = table with a chain/diamond/cycle or a use line that '
                 'mixes a symbol with an identifier containing its name; states = distinct (table, sources) pairs',
         'bounds': {'symbols': SYMS, 'values': {k: [None if v is None else ' '.join(v) for v in vs] for k, vs in VALUES.items()},
                    'containing_identifiers': CONSTS, 'use_tokens': [' '.join(t) for t in USE_TOKENS],
@@ -319,6 +319,30 @@ def number_like_names(acc, idx, n, ctr0):
             acc.violation([case], spec, f'ISA symbol with the integer value {value} ({"YAML" if yaml else "JSON"}, chain {chain}): {msg}', [out],
                           finding='F36' if 'TypeError' in (out.detail or '') else None)
         acc.judge(clause='substituted', nontrivial_key=('intvalue', value, yaml, chain))
+    # a symbol whose name contains the name of the symbol it expands to (BASE inside BASE_HI) is an ordinary chain, not a cycle
+    for (outer, inner), src, depth in itertools.product((('BASE_HI', 'BASE'), ('BUF_LEN', 'LEN'), ('XBASEX', 'BASE'), ('AB', 'A'), ('LEN2', 'LEN')),
+                                                        SOURCES, (1, 2)):
+        ctr += 1
+        if ctr % n != idx:
+            continue
+        table = {inner: '16', outer: f'{inner}+1'}
+        top = outer
+        if depth == 2:
+            top = 'TOP_' + outer
+            table[top] = f'{outer}*2'
+        isa_syms = [{'name': k, 'value': v} for k, v in table.items()] if src == 'isa' else []
+        cli = [f'{k}={v}' for k, v in table.items()] if src == 'cli' else []
+        lines = [f'#define {k} {v}' for k, v in table.items()] if src == 'define' else []
+        lines += [f'    .byte {top}, {inner}', '    .byte $EE']
+        case = Case(probe_isa(16, 'little', symbols=isa_syms or None), '\n'.join(lines) + '\n', defines=cli)
+        out = acc.run(case)
+        acc.transition()
+        want = 17 if depth == 1 else 16 + 1 * 2        # textual: 16+1*2
+        spec = {'expect': 'OK', 'image_hex': bytes([want, 16, 0xEE]).hex(), 'symbols': table, 'source': src}
+        msg = judge_expect(spec, [out])
+        if msg:
+            acc.violation([case], spec, f'{top} expands through {outer} to {inner}, whose name it contains ({src}): {msg}', [out])
+        acc.judge(clause='substituted', nontrivial_key=('contains', outer, inner, src, depth))
     for name, src in itertools.product(('b1', 'FACEH', 'LOOP'), SOURCES):
         ctr += 1
         if ctr % n != idx:
